@@ -162,6 +162,25 @@ def handlePure (req : Json) : Json :=
 def handle (st : DState) (req : Json) : DState × Json :=
   match getStr req "op" with
   | "pure" => (st, handlePure req)
+  | "migrate" =>
+    let msgJ := (req.getObjVal? "msg").toOption.getD .null
+    match parseMStore ((req.getObjVal? "store").toOption.getD .null) with
+    | .error e => (st, Json.mkObj [("bad", .str s!"store: {e}")])
+    | .ok ms =>
+      match parseMigrateMsg msgJ with
+      | .error _ => (st, Json.mkObj [("result", jErr .parse)])
+      | .ok m =>
+        match migrate ms m with
+        | .ok ms' => (st, Json.mkObj [("result", Json.mkObj [("ok", Json.mkObj [])]), ("store", dumpMStore ms')])
+        | .error e => (st, Json.mkObj [("result", jErr e)])
+  | "treasury_migrate" =>
+    let v := (req.getObjVal? "version").toOption.getD .null
+    let stored : Option (String × String) := match v with
+      | .null => none
+      | v => some (getStr v "contract", getStr v "version")
+    match treasuryMigrate stored with
+    | .ok _ => (st, Json.mkObj [("result", Json.mkObj [("ok", Json.mkObj [])])])
+    | .error e => (st, Json.mkObj [("result", jErr e)])
   | "wire_roundtrip" =>
     -- the Lean wire codec on bytes produced for / by prost: decode then re-encode
     let hex := getStr req "hex"
